@@ -135,7 +135,8 @@ def run(ctx):
         if len(sh) < rank or any(a == 1 and b != 1 for a, b in zip(sh, ss)):
             ctx.count('broadcast_needed')
         err = None
-        if asked_before(ctx, rng, lambda: pb.freq_shift(zz, arg)):
+        # ... also on a signal that differs ONLY in its sample rate (same shape, dtype and shift): nothing of that call may carry over
+        if asked_before(ctx, rng, *rng.choice([[lambda: pb.freq_shift(zz, arg)], [lambda: pb.freq_shift(type(zz).like(zz, sample_rate=zz.sample_rate * 2), arg)]]), p=0.4):
             inp['asked_before'] = True
         try:
             y = pb.freq_shift(zz, arg)
